@@ -36,7 +36,14 @@ type item struct {
 	v value.Value
 }
 
-func mk(s *spec) item { return item{s: s, v: build(s)} }
+// mk builds the real value (every node enters the ledger of live values) and has the ledger
+// look at every older live value again: a constructor call changes nothing but its result.
+func mk(s *spec) item {
+	led.op("build", s)
+	it := item{s: s, v: build(s)}
+	led.verify(shAfterCtor, func() string { return "building " + renderShort(s) })
+	return it
+}
 
 func sign(x int) int {
 	switch {
@@ -51,6 +58,10 @@ func sign(x int) int {
 type mon struct {
 	c     *vlib.Ctx
 	cells map[string]struct{} // ordered type pairs this child has compared (for the matrix floor)
+
+	noiseTypes map[byte]int64 // unrelated decodes per top-level type
+	mixedSeen  map[byte]int64 // decoded-copy law on containers mixing payloads of this type
+	held       []held         // (value, decoded copy) pairs of the running case, looked at again at its end
 }
 
 func (m *mon) cell(t string) {
@@ -130,30 +141,64 @@ func (m *mon) selfLaws(recipe string, a item) {
 
 	// the decoded copy, through golib's own WriteValue / ReadValue
 	var d value.Value
-	var wire []byte
-	if p := vlib.Catch(func() { wire = encode(a.v); d = decode(wire) }); p != nil || d == nil {
+	wire, p := encodeCatch(a.v)
+	if p == nil {
+		d, p = decodeWatched(a.s, wire)
+	}
+	if p != nil || d == nil {
 		// the codec itself is the subject of C02/C04, not of this property
 		c.Count("codec_failed_not_judged_here", 1)
 		return
 	}
+	m.judgeDecoded(recipe, a, d, wire)
+}
+
+// judgeDecoded: the decoded-copy law on a value and the result d of decoding its encoding
+// wire. It returns the two Equals results (ok=false if one of them panicked).
+func (m *mon) judgeDecoded(recipe string, a item, d value.Value, wire []byte) (e1, e2, ok bool) {
+	c := m.c
 	dsh, dt := classSelf(a.s, true)
-	di := item{s: asDecoded(a.s), v: d}
+	if dsh == shPlain {
+		// a container mixing different payloads of one type: every decoded element must be a
+		// value of its own (the type part of the key names the first element that is not)
+		if mixed := mixedTypes(a.s); len(mixed) > 0 {
+			dsh = shMixed
+			for _, code := range mixed {
+				m.mixedSeen[code]++
+				c.Count("decoded_copy_mixed_"+typeName[code], 1)
+			}
+		}
+	}
+	where := func() {
+		if dsh == shMixed {
+			if w := firstUnequalLeaf(a.s, a.v, d); w != "" {
+				dt = w + "×" + w
+			}
+		}
+	}
 	e1, p1 := eq(a.v, d)
 	e2, p2 := eq(d, a.v)
+	ok = p1 == nil && p2 == nil
 	c.Count("calls_Equals", 2)
 	c.Count("law_Equals_decoded_copy", 1)
-	ex := map[string]interface{}{"wire_hex": vlib.Hex(wire), "v.Equals(copy)": e1, "copy.Equals(v)": e2}
+	det := func() map[string]interface{} {
+		ex := map[string]interface{}{"wire_hex": vlib.Hex(wire), "v.Equals(copy)": e1, "copy.Equals(v)": e2, "calls_of_the_case_so_far": led.opLog()}
+		return m.detail(recipe, a, item{s: asDecoded(a.s), v: d}, ex)
+	}
 	switch {
 	case p1 != nil || p2 != nil:
-		c.Fail("totality-Equals/"+dt+"/"+dsh, fmt.Sprintf("Equals between v and its decoded copy panicked: %v %v; v=%s", p1, p2, renderShort(a.s)), m.detail(recipe, a, di, ex))
+		c.Fail("totality-Equals/"+dt+"/"+dsh, fmt.Sprintf("Equals between v and its decoded copy panicked: %v %v; v=%s", p1, p2, renderShort(a.s)), det())
 	case !e1:
-		c.Fail("Equals-decoded-copy/"+dt+"/"+dsh, "v.Equals(ReadValue(WriteValue(v))) is false; v="+renderShort(a.s), m.detail(recipe, a, di, ex))
+		where()
+		c.Fail("Equals-decoded-copy/"+dt+"/"+dsh, "v.Equals(ReadValue(WriteValue(v))) is false; v="+renderShort(a.s), det())
 	case !e2:
-		c.Fail("Equals-symmetric/"+dt+"/"+dsh, "v.Equals(copy) is true but copy.Equals(v) is false for the decoded copy; v="+renderShort(a.s), m.detail(recipe, a, di, ex))
+		where()
+		c.Fail("Equals-symmetric/"+dt+"/"+dsh, "v.Equals(copy) is true but copy.Equals(v) is false for the decoded copy; v="+renderShort(a.s), det())
 	}
 	if dsh != shPlain {
 		c.Count("decoded_copy_shape_"+dsh, 1)
 	}
+	return
 }
 
 // pairLaws: every two-value law on (a,b), in both directions.
@@ -358,8 +403,12 @@ func (m *mon) tripleLaws(recipe string, x [3]item) {
 
 // decodedItem is the real decoded copy of a (nil when golib's codec fails on it).
 func decodedItem(a item) (item, bool) {
-	var d value.Value
-	if p := vlib.Catch(func() { d = decode(encode(a.v)) }); p != nil || d == nil {
+	wire, p := encodeCatch(a.v)
+	if p != nil {
+		return item{}, false
+	}
+	d, p := decodeWatched(a.s, wire)
+	if p != nil || d == nil {
 		return item{}, false
 	}
 	return item{s: asDecoded(a.s), v: d}, true
@@ -367,7 +416,30 @@ func decodedItem(a item) (item, bool) {
 
 func main() {
 	c := vlib.Start("C20")
-	m := &mon{c: c, cells: map[string]struct{}{}}
+	m := &mon{c: c, cells: map[string]struct{}{}, noiseTypes: map[byte]int64{}, mixedSeen: map[byte]int64{}}
+	led = &ledger{m: m, byPtr: map[value.Value]int{}, noRing: c.Only != ""}
+
+	// wrap: every case runs inside the ledger of live values. nz is the stream of the case's
+	// unrelated calls (derived from the case id, so a replay makes the same ones).
+	wrap := func(section string, fn func(i int, r, nz *vlib.Rand)) func(int, *vlib.Rand) {
+		return func(i int, r *vlib.Rand) {
+			id := fmt.Sprintf("%s#%d", section, i)
+			led.begin(id)
+			m.held = m.held[:0]
+			nz := c.Rand("noise/" + id)
+			fn(i, r, nz)
+			led.verify(shAfterCmp, func() string { return "the Equals/CompareTo calls of the case" })
+			m.recheckHeld(m.held)
+			led.end(nz)
+		}
+	}
+	// unrelated decodes between building the values of a case and evaluating the laws on them
+	between := func(nz *vlib.Rand, near *spec) {
+		if nz.Bool() {
+			m.held = append(m.held, m.noise(nz, 1+nz.Intn(3), near)...)
+			c.Count("cases_with_decodes_between_build_and_laws", 1)
+		}
+	}
 
 	// the code table of this worker against the library's own GetValueType (a mismatch would
 	// make the type-order oracle meaningless: stop loudly)
@@ -388,8 +460,9 @@ func main() {
 	nPairsCells := nCodes * nCodes
 	const block = 16 // 16 consecutive case indices share the matrix cell / recipe (one per shard with 16 shards)
 
-	pairCase := func(recipe string, sa, sb *spec) {
+	pairCase := func(recipe string, sa, sb *spec, nz *vlib.Rand) {
 		a, b := mk(sa), mk(sb)
+		between(nz, sa)
 		m.selfLaws(recipe, a)
 		m.pairLaws(recipe, a, b)
 		c.Count("pairs", 1)
@@ -398,7 +471,7 @@ func main() {
 	}
 
 	// (1) the whole type-code pair matrix, cell by cell
-	c.Cases("matrix", c.N(64000, 1600000), func(i int, r *vlib.Rand) {
+	c.Cases("matrix", c.N(64000, 1600000), wrap("matrix", func(i int, r, nz *vlib.Rand) {
 		cell := (i / block) % nPairsCells
 		ca, cb := allCodes[cell/nCodes], allCodes[cell%nCodes]
 		g := &gen{r: r, nilOK: true}
@@ -417,14 +490,14 @@ func main() {
 			}
 			sb = g.value(cb, depth)
 		}
-		pairCase("matrix", sa, sb)
-	})
+		pairCase("matrix", sa, sb, nz)
+	}))
 
 	// (2) the targeted shapes of the property
-	shapeNames := []string{"map-keys", "map-order", "list-types", "nil-empty", "sum-count", "decoded", "near", "nested", "NaN", "wide"}
-	c.Cases("shapes", c.N(76000, 1900000), func(i int, r *vlib.Rand) {
+	shapeNames := []string{"map-keys", "map-order", "list-types", "nil-empty", "sum-count", "decoded", "near", "nested", "NaN", "wide", "mixed-container"}
+	c.Cases("shapes", c.N(76000, 1900000), wrap("shapes", func(i int, r, nz *vlib.Rand) {
 		g := &gen{r: r}
-		k := (i / block) % 39
+		k := (i / block) % 45
 		var name string
 		var sa, sb *spec
 		switch {
@@ -449,6 +522,7 @@ func main() {
 			name = shapeNames[5]
 			g.nilOK = true
 			a := mk(g.any(3))
+			between(nz, a.s)
 			m.selfLaws(name, a)
 			if d, ok := decodedItem(a); ok {
 				m.pairLaws(name, a, d)
@@ -473,15 +547,21 @@ func main() {
 			name = shapeNames[8]
 			nn := g.shapeNaN(2)
 			sa, sb = nn[0], nn[1]
-		default:
+		case k < 39:
 			name = shapeNames[9]
 			sa, sb = g.shapeWide()
+		default:
+			// containers mixing different payloads of one type
+			name = shapeNames[10]
+			g.nilOK = r.Bool()
+			g.small = r.Chance(1, 4)
+			sa, sb = g.shapeMixed()
 		}
-		pairCase(name, sa, sb)
-	})
+		pairCase(name, sa, sb, nz)
+	}))
 
 	// (3) independent random pairs from the recursive generator
-	c.Cases("random", c.N(60000, 1500000), func(i int, r *vlib.Rand) {
+	c.Cases("random", c.N(60000, 1500000), wrap("random", func(i int, r, nz *vlib.Rand) {
 		g := &gen{r: r, nilOK: true}
 		if r.Chance(1, 3) {
 			g.small = true
@@ -493,13 +573,13 @@ func main() {
 		} else {
 			sb = g.any(3)
 		}
-		pairCase("random", sa, sb)
-	})
+		pairCase("random", sa, sb, nz)
+	}))
 
 	// (4) triples
-	c.Cases("triples", c.N(100000, 2000000), func(i int, r *vlib.Rand) {
+	c.Cases("triples", c.N(100000, 2000000), wrap("triples", func(i int, r, nz *vlib.Rand) {
 		g := &gen{r: r}
-		k := (i / block) % 40
+		k := (i / block) % 44
 		var s [3]*spec
 		var x [3]item
 		have := false
@@ -516,7 +596,7 @@ func main() {
 				g.cluster = true
 				g.clusterBase = r.Intn(8)
 			}
-			code := allCodes[(i/block/40)%nCodes]
+			code := allCodes[(i/block/44)%nCodes]
 			for j := range s {
 				s[j] = g.value(code, 1)
 			}
@@ -648,6 +728,21 @@ func main() {
 				g.mutateLeaves(cc)
 			}
 			s = [3]*spec{a, b, cc}
+		case k >= 40:
+			name = "mixed-container"
+			g.nilOK = r.Bool()
+			a, b := g.shapeMixed()
+			var cc *spec
+			switch r.Intn(3) {
+			case 0:
+				cc = clone(a)
+			case 1:
+				cc = g.mutate(b)
+			default:
+				cc = clone(a)
+				g.mutateLeaves(cc)
+			}
+			s = [3]*spec{a, b, cc}
 		default:
 			// three independent containers of one type over tiny pools
 			name = "containers-small"
@@ -667,6 +762,7 @@ func main() {
 				x[j] = mk(s[j])
 			}
 		}
+		between(nz, x[nz.Intn(3)].s)
 		m.tripleLaws(name, x)
 		c.Count("triples", 1)
 		c.Count("triple_recipe_"+name, 1)
@@ -674,7 +770,72 @@ func main() {
 		if i < 3*block && i%block == 0 {
 			c.Sample(map[string]interface{}{"kind": "triple", "recipe": name, "a": renderShort(x[0].s), "b": renderShort(x[1].s), "c": renderShort(x[2].s)})
 		}
-	})
+	}))
+
+	// (5) histories: three values are built with unrelated constructor calls and decodes
+	// between them; every result is taken before a run of unrelated decodes and again after it;
+	// then all laws are evaluated on the (old) values
+	c.Cases("history", c.N(48000, 1200000), wrap("history", func(i int, r, nz *vlib.Rand) {
+		g := &gen{r: r, nilOK: true}
+		k := (i / block) % 10
+		var s [3]*spec
+		var name string
+		switch {
+		case k < 3:
+			name = "mixed-container"
+			a, b := g.shapeMixed()
+			s = [3]*spec{a, b, g.mutate(a)}
+		case k < 6:
+			// three scalars / leaves of one type from tiny pools (both bools, 0 1 2, "" "a" "b")
+			name = "same-type-small"
+			g.small = true
+			code := leafCodes[(i/block/10)%len(leafCodes)]
+			for j := range s {
+				s[j] = g.leaf(code)
+			}
+		case k < 8:
+			name = "chain"
+			s[0] = g.any(2)
+			s[1] = g.mutate(s[0])
+			if r.Bool() {
+				s[2] = clone(s[0])
+			} else {
+				s[2] = g.mutate(s[1])
+			}
+		default:
+			name = "independent"
+			g.small = r.Bool()
+			for j := range s {
+				s[j] = g.any(2)
+			}
+		}
+		var x [3]item
+		for j := range s {
+			x[j] = mk(s[j])
+			if j < 2 && nz.Chance(1, 3) {
+				// unrelated calls between the constructor calls of the case
+				m.held = append(m.held, m.noise(nz, 1, s[j])...)
+			}
+		}
+		before := takeResults(x[:])
+		c.Count("calls_Equals", 9)
+		c.Count("calls_CompareTo", 9)
+		m.held = append(m.held, m.noise(nz, 2+nz.Intn(5), s[nz.Intn(3)])...)
+		after := takeResults(x[:])
+		c.Count("calls_Equals", 9)
+		c.Count("calls_CompareTo", 9)
+		m.sameResults(x[:], before, after, shAfterDecode)
+		// the laws, on values that have lived through the decodes
+		m.selfLaws("history", x[0])
+		m.pairLaws("history", x[0], x[1])
+		m.tripleLaws("history", x)
+		c.Count("history_cases", 1)
+		c.Count("history_recipe_"+name, 1)
+		c.Distinct(vlib.HashStr("history|" + render(s[0]) + "|" + render(s[1]) + "|" + render(s[2])))
+		if i < 2*block && i%block == 0 {
+			c.Sample(map[string]interface{}{"kind": "history", "recipe": name, "calls": led.opLog()})
+		}
+	}))
 
 	// ---- observation floors (≤ 10 % of what an unchanged run reaches; per shard, summed by the driver)
 	sh := int64(c.NShards)
@@ -688,6 +849,33 @@ func main() {
 		c.Floor("law_Equals_decoded_copy", int64(c.N(200000, 5000000))/10/sh, c.Counter("law_Equals_decoded_copy"))
 		c.Floor("law_CompareTo_type_order", int64(c.N(200000, 5000000))/20/sh, c.Counter("law_CompareTo_type_order"))
 		c.Floor("law_CompareTo_zero_iff_equal", int64(c.N(200000, 5000000))/40/sh, c.Counter("law_CompareTo_zero_iff_equal"))
+
+		// histories
+		nh := int64(c.N(48000, 1200000))
+		c.Floor("history_cases", nh/10/sh, c.Counter("history_cases"))
+		c.Floor("noise_decodes", nh/4/sh, c.Counter("noise_decodes"))
+		c.Floor("cases_with_decodes_between_build_and_laws", int64(c.N(300000, 7000000))/20/sh, c.Counter("cases_with_decodes_between_build_and_laws"))
+		c.Floor("ledger_verify_after-decode", nh/2/sh, c.Counter("ledger_verify_"+shAfterDecode))
+		c.Floor("ledger_verify_after-constructor", nh/2/sh, c.Counter("ledger_verify_"+shAfterCtor))
+		c.Floor("ledger_values_reverified", nh*2/sh, c.Counter("ledger_values_reverified"))
+		c.Floor("ledger_ring_reverified", nh/sh, c.Counter("ledger_ring_reverified"))
+		c.Floor("identity_checks", nh/sh, c.Counter("identity_checks"))
+		c.Floor("law_results_stable", nh*9/10/sh, c.Counter("law_results_stable"))
+		c.Floor("law_decoded_copy_after_later_calls", nh/4/sh, c.Counter("law_decoded_copy_after_later_calls"))
+		// every type was decoded as an unrelated value; the decoded-copy law met containers
+		// mixing different payloads of every type that has a payload
+		minOf := func(mp map[byte]int64, codes []byte) int64 {
+			lo := int64(-1)
+			for _, code := range codes {
+				if v := mp[code]; lo < 0 || v < lo {
+					lo = v
+				}
+			}
+			return lo
+		}
+		c.Floor("noise_decodes_least_covered_type", nh/400/sh, minOf(m.noiseTypes, allCodes))
+		c.Floor("decoded_copy_mixed_container_least_covered_type", int64(c.N(300000, 7000000))/8000/sh, minOf(m.mixedSeen, allCodes[1:]))
+		c.Floor("decoded_copy_mixed_container_bools", int64(c.N(300000, 7000000))/2000/sh, m.mixedSeen[cBool])
 	}
 	c.Finish()
 	fmt.Println("done")
